@@ -127,6 +127,7 @@ func c12Run(c *fw.Case, n int, inflight string) {
 		cancel()
 	}
 	r := c.Rng.Fork("hostile")
+	var lastReqs []string
 	md := func(ctx context.Context) context.Context {
 		switch r.Intn(4) {
 		case 0:
@@ -167,6 +168,13 @@ func c12Run(c *fw.Case, n int, inflight string) {
 			c.Count("requests", 1)
 			if mut != nil {
 				c.Count("requests_wire_mutated", 1)
+			}
+			if len(lastReqs) < 6 {
+				txt := fmt.Sprintf("%T %v", rt, rt)
+				if len(txt) > 400 {
+					txt = txt[:400]
+				}
+				lastReqs = append(lastReqs, txt)
 			}
 			switch req := rt.(type) {
 			case *gnmi.SetRequest:
@@ -276,6 +284,9 @@ func c12Run(c *fw.Case, n int, inflight string) {
 	_ = os.Remove(inflight)
 	c.Class(fmt.Sprintf("populated=%v", populated))
 	c.Count("batches", 1)
+	if c.Index%30 == 0 {
+		c.Sample(map[string]interface{}{"populated": populated, "last_requests": lastReqs})
+	}
 	// the controllers must have survived the transactions hostile requests created: give them a moment and touch the world
 	time.Sleep(50 * time.Millisecond)
 	if _, err := inc.RawTxs.List(context.Background()); err != nil {
